@@ -151,3 +151,154 @@ theorem decToU64_ok_allDigits (s : Bytes) (n : Nat) (h : decToU64 s = .ok n) : A
 
 end Model
 end JV
+
+namespace JV
+namespace Model
+
+theorem decVal_snoc (a : Bytes) (d : Nat) : decVal (a ++ [d]) = decVal a * 10 + (d - 48) := by
+  rw [decVal_append]; simp [decVal]
+
+/-- the digit loop prints exactly the decimal digits of `n` (no leading zero, at most `fuel` of them) -/
+theorem revDigits_spec : ∀ (fuel n : Nat), n < 10 ^ fuel → 0 < fuel →
+    decVal (revDigits fuel n).reverse = n ∧ AllDigits (revDigits fuel n).reverse ∧
+    (revDigits fuel n) ≠ [] ∧ (revDigits fuel n).length ≤ fuel ∧
+    ((revDigits fuel n).reverse.head? = some 48 → n = 0)
+  | 0, _, _, h => absurd h (by omega)
+  | fuel + 1, n, hn, _ => by
+    have hd : 48 + n % 10 - 48 = n % 10 := by omega
+    have hdig : isDigit (48 + n % 10) = true := isDigit_iff.2 ⟨by omega, by omega⟩
+    by_cases hz : n / 10 = 0
+    · have hlt : n < 10 := by omega
+      simp only [revDigits, hz, if_true, List.reverse_cons, List.reverse_nil, List.nil_append]
+      refine ⟨by simp [decVal]; omega, ?_, by simp, by simp, ?_⟩
+      · intro c hc; simp at hc; rw [hc]; exact hdig
+      · intro h; simp at h; omega
+    · have hfuel : 0 < fuel := by
+        cases fuel with
+        | zero => simp at hn; omega
+        | succ f => omega
+      have hlt : n / 10 < 10 ^ fuel := by
+        rw [Nat.pow_succ] at hn
+        omega
+      obtain ⟨h1, h2, h3, h4, h5⟩ := revDigits_spec fuel (n / 10) hlt hfuel
+      simp only [revDigits, hz, if_false, List.reverse_cons]
+      refine ⟨?_, ?_, by simp, by simp; omega, ?_⟩
+      · rw [decVal_snoc, h1, hd]; omega
+      · intro c hc
+        rcases List.mem_append.1 hc with e | e
+        · exact h2 c e
+        · simp at e; rw [e]; exact hdig
+      · intro h
+        have hne : (revDigits fuel (n / 10)).reverse ≠ [] := by simpa using h3
+        cases hl : (revDigits fuel (n / 10)).reverse with
+        | nil => exact absurd hl hne
+        | cons c cs =>
+          rw [hl] at h h5
+          simp at h
+          exact absurd (h5 (by simp [h])) hz
+
+theorem pow64_lt : (2:Nat) ^ 64 < 10 ^ 20 := by decide
+
+/-- a stored unsigned integer prints as its exact decimal digits, which parse back to it -/
+theorem fromUnsigned_roundtrip (n : Nat) (hn : n < 2 ^ 64) : decToU64 (fromUnsigned n) = .ok n := by
+  have h255 : n < 10 ^ 255 := by
+    have : (10:Nat) ^ 20 ≤ 10 ^ 255 := Nat.pow_le_pow_right (by omega) (by omega)
+    have := pow64_lt; omega
+  obtain ⟨h1, h2, h3, _, _⟩ := revDigits_spec 255 n h255 (by omega)
+  have h20 := revDigits_spec 20 n (by have := pow64_lt; omega) (by omega)
+  -- the digit string does not depend on the fuel once it suffices
+  have hsame : ∀ (f g m : Nat), m < 10 ^ (f + 1) → m < 10 ^ (g + 1) → revDigits (f + 1) m = revDigits (g + 1) m := by
+    intro f
+    induction f with
+    | zero =>
+      intro g m hm _
+      have : m / 10 = 0 := by simp at hm; omega
+      simp [revDigits, this]
+    | succ f ih =>
+      intro g m hm hg
+      by_cases hz : m / 10 = 0
+      · simp [revDigits, hz]
+      · cases g with
+        | zero => simp at hg; omega
+        | succ g =>
+          have e := ih g (m / 10) (by rw [Nat.pow_succ] at hm; omega) (by rw [Nat.pow_succ] at hg; omega)
+          show (48 + m % 10) :: (if m / 10 = 0 then [] else revDigits (f + 1) (m / 10)) =
+               (48 + m % 10) :: (if m / 10 = 0 then [] else revDigits (g + 1) (m / 10))
+          rw [e]
+  have hlen : (fromUnsigned n).length ≤ 20 := by
+    unfold fromUnsigned
+    rw [hsame 254 19 n h255 (by have := pow64_lt; omega)]
+    simpa using h20.2.2.2.1
+  have hne : fromUnsigned n ≠ [] := by unfold fromUnsigned; simpa using h3
+  rw [decToU64_digits (fromUnsigned n) hne h2 hlen]
+  have : decVal (fromUnsigned n) = n := h1
+  rw [this]
+  have : n ≤ 2 ^ 64 - 1 := by omega
+  simp [this]
+
+theorem fromUnsigned_digits (n : Nat) (hn : n < 2 ^ 64) :
+    AllDigits (fromUnsigned n) ∧ fromUnsigned n ≠ [] ∧ decVal (fromUnsigned n) = n ∧ ((fromUnsigned n).head? = some 48 → n = 0) := by
+  have h255 : n < 10 ^ 255 := by
+    have : (10:Nat) ^ 20 ≤ 10 ^ 255 := Nat.pow_le_pow_right (by omega) (by omega)
+    have := pow64_lt; omega
+  obtain ⟨h1, h2, h3, _, h5⟩ := revDigits_spec 255 n h255 (by omega)
+  exact ⟨h2, by unfold fromUnsigned; simpa using h3, h1, h5⟩
+
+/-- the negative branch never negates: it prints the digits of `-v` -/
+theorem revDigitsNeg_eq : ∀ (fuel : Nat) (m : Nat), 0 < m → revDigitsNeg fuel (-(m : Int)) = revDigits fuel m
+  | 0, _, _ => rfl
+  | fuel + 1, m, hm => by
+    have h1 : Int.tmod (-(m : Int)) 10 = -((m % 10 : Nat) : Int) := by
+      rw [Int.neg_tmod]; simp [Int.tmod]
+    have h2 : Int.tdiv (-(m : Int)) 10 = -((m / 10 : Nat) : Int) := by
+      rw [Int.neg_tdiv]; simp [Int.tdiv]
+    simp only [revDigitsNeg, revDigits, h1, h2]
+    have : (48 - -((m % 10 : Nat) : Int)).toNat = 48 + m % 10 := by omega
+    rw [this]
+    by_cases hz : m / 10 = 0
+    · simp [hz]
+    · have : ¬ (-((m / 10 : Nat) : Int) = 0) := by omega
+      simp only [this, hz, if_false]
+      rw [revDigitsNeg_eq fuel (m / 10) (by omega)]
+
+/-- every stored signed 64-bit integer prints as its exact decimal digits, which parse back to it -/
+theorem fromInteger_roundtrip (v : Int) (hlo : -(2 ^ 63 : Int) ≤ v) (hhi : v < 2 ^ 63) : decToI64 (fromInteger v) = .ok v := by
+  unfold fromInteger
+  by_cases hneg : v < 0
+  · simp only [hneg, if_true]
+    obtain ⟨m, hm⟩ : ∃ m : Nat, v = -(m : Int) := ⟨(-v).toNat, by omega⟩
+    subst hm
+    have hmpos : 0 < m := by omega
+    have hm64 : m < 2 ^ 64 := by omega
+    rw [revDigitsNeg_eq 255 m hmpos]
+    have hrt := fromUnsigned_roundtrip m hm64
+    unfold fromUnsigned at hrt
+    unfold decToI64
+    simp only [List.length_cons, Nat.succ_ne_zero, if_false, List.head?_cons, if_true, List.drop_one, List.tail_cons, hrt]
+    have : ¬ (m > 2 ^ 63) := by omega
+    simp [this]
+  · simp only [hneg, if_false]
+    obtain ⟨m, hm⟩ : ∃ m : Nat, v = (m : Int) := ⟨v.toNat, by omega⟩
+    subst hm
+    have hm64 : m < 2 ^ 64 := by omega
+    have hrt := fromUnsigned_roundtrip m hm64
+    obtain ⟨hall, hne, _, _⟩ := fromUnsigned_digits m hm64
+    unfold fromUnsigned at hrt hall hne
+    simp only [Int.toNat_natCast]
+    unfold decToI64
+    have hlen : (revDigits 255 m).reverse.length ≠ 0 := by
+      intro h; exact hne (List.length_eq_zero_iff.1 h)
+    have hhead : ¬ ((revDigits 255 m).reverse.head? = some 45) := by
+      intro h
+      cases hl : (revDigits 255 m).reverse with
+      | nil => exact hne hl
+      | cons c cs =>
+        rw [hl] at h; simp at h; subst h
+        have := isDigit_iff.1 (hall 45 (by rw [hl]; simp))
+        omega
+    simp only [hlen, if_false, hhead, hrt]
+    have : ¬ (m > 2 ^ 63 - 1) := by omega
+    simp [this]
+
+end Model
+end JV
